@@ -61,15 +61,16 @@ orc_x86_use_long_jumps (OrcX86Target *t, OrcCompiler *c)
 static void
 orc_x86_compiler_max_loop_shift (OrcX86Target *t, OrcCompiler *c)
 {
-  int i;
-  int n = 2;
+  int ratio = t->register_size / c->max_var_size;
+  int shift = 0;
 
-  for (i = 1; i; i++) {
-    if ((t->register_size / c->max_var_size) == n)
-      break;
-    n *= 2;
-  } 
-  c->loop_shift = i;
+  /* log2 of the number of max-sized elements per register; 0 when a
+   * variable fills (or exceeds) the whole register */
+  while (ratio > 1) {
+    ratio >>= 1;
+    shift++;
+  }
+  c->loop_shift = shift;
 }
 
 static void
